@@ -1,3 +1,300 @@
+//! C12 — result accessors expose exactly the produced shards; drop starts a new round.
+use std::collections::BTreeSet;
+
+use crate::core::*;
+use crate::json::J;
+use crate::kv::*;
 use crate::report::*;
-pub fn run(_ctx: &Ctx, rep: &mut Report) { rep.machinery_errors.push("not implemented".into()); }
-pub fn replay(_ctx: &Ctx, _case: &str) -> Result<(), String> { Err("not implemented".into()) }
+use crate::rt::*;
+use crate::with_engine;
+use reed_solomon_simd::Error;
+
+type V = (String, String);
+
+fn soil_opt(soil: u64) -> Option<u64> {
+    if soil == 0 {
+        None
+    } else {
+        Some(soil)
+    }
+}
+
+fn index_probe(count: usize, base: usize) -> Vec<usize> {
+    let mut v: Vec<usize> = (0..count + 3).collect();
+    v.extend([usize::MAX - base, (usize::MAX - base).wrapping_add(1), usize::MAX - 1, usize::MAX, usize::MAX / 2, 65535, 65536]);
+    v.sort();
+    v.dedup();
+    v
+}
+
+/// encoder result accessors for one configuration (want = reference recovery)
+fn check_enc_accessors(eng: &str, codec: &str, k: usize, r: usize, bytes: usize, seed: u64, refm: &RefModel) -> Result<u64, V> {
+    let kind = codec_kind(codec);
+    let originals = data_dense(k, bytes, seed);
+    let want = refm.encode(spec_is_high(kind, k, r), k, r, &originals);
+    let res = guard(|| -> Result<u64, V> {
+        with_engine!(eng, E => {
+            let mut enc = make_encoder::<E>(kind, k, r, bytes, Some(seed | 1)).map_err(|e| ("new Ok".to_string(), format!("{e:?}")))?;
+            let mut n = 0u64;
+            for round in 0..2 {
+                for o in &originals { enc.add(o).map_err(|e| (format!("round {round}: add Ok"), format!("{e:?}")))?; }
+                let result = enc.encode().map_err(|e| (format!("round {round}: encode Ok"), format!("{e:?}")))?;
+                for i in index_probe(r, 0) {
+                    let got = result.recovery(i);
+                    n += 1;
+                    if i < r {
+                        match got {
+                            Some(s) if s == want[i].as_slice() => {}
+                            other => return Err((format!("recovery({}) == Some(reference shard of {bytes} bytes)", fmt_usize(i)), format!("{:?}", other.map(|s| (s.len(), hex(s)))))),
+                        }
+                    } else if got.is_some() {
+                        return Err((format!("recovery({}) == None (recovery_count = {r})", fmt_usize(i)), format!("Some({} bytes)", got.unwrap().len())));
+                    }
+                }
+                let mut it = result.recovery_iter();
+                for i in 0..r {
+                    match it.next() {
+                        Some(s) if s == want[i].as_slice() => {}
+                        other => return Err((format!("iterator item {i} == recovery({i})"), format!("{:?}", other.map(|s| (s.len(), hex(s)))))),
+                    }
+                    n += 1;
+                }
+                for extra in 0..4 {
+                    if let Some(s) = it.next() {
+                        return Err((format!("iterator returns None after {r} items (call {extra} after exhaustion)"), format!("Some({} bytes)", s.len())));
+                    }
+                    n += 1;
+                }
+                // a second iterator is independent of the first
+                if result.recovery_iter().count() != r {
+                    return Err((format!("second iterator yields {r} items"), "different count".into()));
+                }
+                drop(result);
+            }
+            Ok(n)
+        })
+    });
+    match res {
+        Ok(r) => r,
+        Err(p) => Err(("no panic".into(), format!("PANIC: {p}"))),
+    }
+}
+
+/// decoder result accessors in the state where shards `og`/`rg` were given
+fn check_dec_accessors(g: &Group, og: &[usize], rg: &[usize]) -> Result<u64, V> {
+    let kind = codec_kind(&g.codec);
+    let given: BTreeSet<usize> = og.iter().copied().collect();
+    let hi = spec_is_high(kind, g.k, g.r);
+    let obase = if hi { pow2ceil(g.r) } else { 0 };
+    let res = guard(|| -> Result<u64, V> {
+        with_engine!(g.eng.as_str(), E => {
+            let mut dec = make_decoder::<E>(kind, g.k, g.r, g.bytes, soil_opt(g.soil)).map_err(|e| ("new Ok".to_string(), format!("{e:?}")))?;
+            for &i in og { dec.add_original(i, &g.originals[i]).map_err(|e| ("add Ok".to_string(), format!("{e:?}")))?; }
+            for &j in rg { dec.add_recovery(j, &g.recovery[j]).map_err(|e| ("add Ok".to_string(), format!("{e:?}")))?; }
+            let result = dec.decode().map_err(|e| ("decode Ok".to_string(), format!("{e:?}")))?;
+            let mut n = 0u64;
+            for i in index_probe(g.k, obase) {
+                let got = result.restored_original(i);
+                n += 1;
+                if i < g.k && !given.contains(&i) {
+                    match got {
+                        Some(s) if s == g.originals[i].as_slice() => {}
+                        other => return Err((format!("restored_original({}) == Some(original {i})", fmt_usize(i)), format!("{:?}", other.map(|s| (s.len(), hex(s)))))),
+                    }
+                } else if got.is_some() {
+                    return Err((format!("restored_original({}) == None ({})", fmt_usize(i), if i < g.k { "that original was given" } else { "index out of range" }), format!("Some({} bytes)", got.unwrap().len())));
+                }
+            }
+            let want: Vec<usize> = (0..g.k).filter(|i| !given.contains(i)).collect();
+            let mut it = result.restored_original_iter();
+            for &i in &want {
+                match it.next() {
+                    Some((idx, s)) if idx == i && s == g.originals[i].as_slice() => {}
+                    other => return Err((format!("iterator yields (index {i}, original {i}) next (ascending order, missing originals only)"), format!("{:?}", other.map(|(idx, s)| (idx, s.len(), hex(s)))))),
+                }
+                n += 1;
+            }
+            for extra in 0..4 {
+                if let Some((idx, _)) = it.next() {
+                    return Err((format!("iterator returns None forever after {} items (call {extra} after exhaustion)", want.len()), format!("Some(index {idx})")));
+                }
+                n += 1;
+            }
+            Ok(n)
+        })
+    });
+    match res {
+        Ok(r) => r,
+        Err(p) => Err(("no panic".into(), format!("PANIC: {p}"))),
+    }
+}
+
+/// consecutive rounds on one decoder separated only by dropping the result
+fn check_rounds(g: &Group, g2: &Group, sets: &[u32]) -> Result<u64, V> {
+    let kind = codec_kind(&g.codec);
+    let res = guard(|| -> Result<u64, V> {
+        with_engine!(g.eng.as_str(), E => {
+            let mut dec = make_decoder::<E>(kind, g.k, g.r, g.bytes, soil_opt(g.soil)).map_err(|e| ("new Ok".to_string(), format!("{e:?}")))?;
+            let mut n = 0u64;
+            for (round, &mask) in sets.iter().enumerate() {
+                let src = if round % 2 == 0 { g } else { g2 };
+                let (og, rg) = split_mask(g.k, g.r, mask);
+                for &i in &og {
+                    dec.add_original(i, &src.originals[i]).map_err(|e: Error| (format!("round {round}: add_original_shard({i}) Ok (previous result was dropped)"), format!("Err({e:?})")))?;
+                }
+                for &j in &rg {
+                    dec.add_recovery(j, &src.recovery[j]).map_err(|e: Error| (format!("round {round}: add_recovery_shard({j}) Ok (previous result was dropped)"), format!("Err({e:?})")))?;
+                }
+                let result = dec.decode().map_err(|e| (format!("round {round}: decode Ok"), format!("Err({e:?})")))?;
+                let m: std::collections::BTreeMap<usize, Vec<u8>> = result.restored_original_iter().map(|(i, s)| (i, s.to_vec())).collect();
+                drop(result);
+                src.check_restored(&og, &m).map_err(|e| (format!("round {round}: restored == missing originals of this round"), e))?;
+                n += 1;
+            }
+            Ok(n)
+        })
+    });
+    match res {
+        Ok(r) => r,
+        Err(p) => Err(("no panic".into(), format!("PANIC: {p}"))),
+    }
+}
+
+/// consecutive rounds on one encoder
+fn check_enc_rounds(eng: &str, codec: &str, k: usize, r: usize, bytes: usize, rounds: usize, seed: u64, refm: &RefModel) -> Result<u64, V> {
+    let kind = codec_kind(codec);
+    let res = guard(|| -> Result<u64, V> {
+        with_engine!(eng, E => {
+            let mut enc = make_encoder::<E>(kind, k, r, bytes, Some(seed | 1)).map_err(|e| ("new Ok".to_string(), format!("{e:?}")))?;
+            for round in 0..rounds {
+                let originals = data_dense(k, bytes, seed ^ (round as u64 * 77));
+                let want = refm.encode(spec_is_high(kind, k, r), k, r, &originals);
+                for (i, o) in originals.iter().enumerate() {
+                    enc.add(o).map_err(|e| (format!("round {round}: add_original_shard #{i} Ok (previous result was dropped)"), format!("Err({e:?})")))?;
+                }
+                let result = enc.encode().map_err(|e| (format!("round {round}: encode Ok"), format!("Err({e:?})")))?;
+                let got: Vec<Vec<u8>> = result.recovery_iter().map(|s| s.to_vec()).collect();
+                if got != want {
+                    return Err((format!("round {round}: recovery == reference for this round's data"), "differs".into()));
+                }
+            }
+            Ok(rounds as u64)
+        })
+    });
+    match res {
+        Ok(r) => r,
+        Err(p) => Err(("no panic".into(), format!("PANIC: {p}"))),
+    }
+}
+
+fn run_case(refm: &RefModel, kv: &Kv) -> Result<u64, V> {
+    match kv.str("what") {
+        "enc" => check_enc_accessors(kv.str("eng"), kv.str("codec"), kv.usize("k"), kv.usize("r"), kv.usize("bytes"), kv.u64("seed"), refm),
+        "encrounds" => check_enc_rounds(kv.str("eng"), kv.str("codec"), kv.usize("k"), kv.usize("r"), kv.usize("bytes"), kv.usize("rounds"), kv.u64("seed"), refm),
+        "dec" => {
+            let g = Group::from_kv(kv).map_err(|e| ("encode Ok".to_string(), e))?;
+            check_dec_accessors(&g, &parse_ranges(kv.str("og")), &parse_ranges(kv.str("rg")))
+        }
+        "rounds" => {
+            let g = Group::from_kv(kv).map_err(|e| ("encode Ok".to_string(), e))?;
+            let g2 = build_group(&g.eng, &g.codec, g.k, g.r, &g.data.replace("dense:", "dense2:"), g.soil, g.seed).map_err(|e| ("encode Ok".to_string(), e))?;
+            let sets: Vec<u32> = kv.list("sets").iter().map(|x| *x as u32).collect();
+            check_rounds(&g, &g2, &sets)
+        }
+        w => panic!("what {w}"),
+    }
+}
+
+pub fn replay(_ctx: &Ctx, case: &str) -> Result<(), String> {
+    let kv = Kv::parse(case)?;
+    run_case(&RefModel::new(), &kv).map(|_| ()).map_err(|(e, o)| format!("expected {e}; observed {o}"))
+}
+
+pub fn run(ctx: &Ctx, rep: &mut Report) {
+    let refm = RefModel::new();
+    let seed = ctx.seed;
+    let soil = seed | 1;
+    rep.rule = "encoder: after every encode of the small configuration set, recovery(i) for i in 0..r+2 and extreme indexes, iterator contents/order and 4 calls after exhaustion, twice per object; decoder: the same for restored_original / iterator in every decodable received-set of the lattice; rounds: every ordered pair (thorough: triple) of received-sets on one object separated only by dropping the result, and up to 6 consecutive rounds; non-trivial = accessor cases with at least one Some and one None answer, and all multi-round cases; distinct by (kind of case, engine, codec, k, r, set(s))".into();
+    let mut cases: Vec<Kv> = Vec::new();
+    let engs: Vec<&str> = engines_fast().into_iter().chain(["default"]).collect();
+    let kmax = if ctx.thorough() { 5 } else { 4 };
+    for &eng in &engs {
+        for codec in if eng == "default" { vec!["rs", "def"] } else { vec!["high", "low", "def"] } {
+            for k in 1..=kmax {
+                for r in 1..=kmax {
+                    for bytes in [2usize, 64, 66] {
+                        cases.push(Kv::new().with("what", "enc").with("eng", eng).with("codec", codec).with("k", k).with("r", r).with("bytes", bytes).with("seed", seed));
+                    }
+                    cases.push(Kv::new().with("what", "encrounds").with("eng", eng).with("codec", codec).with("k", k).with("r", r).with("bytes", 66).with("rounds", 6).with("seed", seed));
+                }
+            }
+        }
+    }
+    let nmax = if ctx.thorough() { 7 } else { 5 };
+    for &eng in &engs {
+        for codec in if eng == "default" { vec!["rs", "def"] } else { vec!["high", "low", "def"] } {
+            for k in 1..nmax {
+                for r in 1..nmax {
+                    if k + r > nmax {
+                        continue;
+                    }
+                    let data = if (k + r) % 2 == 0 { "dense:66" } else { "dense:64" };
+                    let base = Kv::new().with("eng", eng).with("codec", codec).with("k", k).with("r", r).with("data", data).with("soil", soil).with("seed", seed);
+                    let sets = subsets_at_least_k(k, r);
+                    for &mask in &sets {
+                        let (og, rg) = split_mask(k, r, mask);
+                        cases.push(base.clone().with("what", "dec").with("og", fmt_ranges(&og)).with("rg", fmt_ranges(&rg)));
+                    }
+                    if k + r <= 4 {
+                        for &a in &sets {
+                            for &b in &sets {
+                                cases.push(base.clone().with("what", "rounds").with("sets", format!("{a},{b}")));
+                                if ctx.thorough() {
+                                    for &c in &sets {
+                                        cases.push(base.clone().with("what", "rounds").with("sets", format!("{a},{b},{c}")));
+                                    }
+                                }
+                            }
+                        }
+                        // six consecutive rounds of a fixed pattern
+                        for &a in &sets {
+                            cases.push(base.clone().with("what", "rounds").with("sets", format!("{a},{a},{a},{a},{a},{a}")));
+                        }
+                    }
+                }
+            }
+        }
+    }
+    rep.bound("encoder_cfg", J::s(format!("[1..{kmax}]^2 x sizes 2/64/66 x {engs:?}")));
+    rep.bound("decoder_lattice", J::s(format!("every sufficient received-set for k+r <= {nmax}")));
+    rep.bound("rounds", J::s(format!("every ordered {} of received-sets for k+r <= 4; 6 consecutive rounds per set", if ctx.thorough() { "pair and triple" } else { "pair" })));
+    let results: Vec<Result<u64, V>> = par_for(cases.len(), 8, |i| match guard(|| run_case(&refm, &cases[i])) {
+        Ok(r) => r,
+        Err(p) => Err(("no panic".into(), format!("PANIC: {p}"))),
+    });
+    let mut per: std::collections::BTreeMap<String, u64> = Default::default();
+    for (kv, res) in cases.iter().zip(results) {
+        rep.states += 1;
+        rep.traces += 1;
+        rep.distinct += 1;
+        *per.entry(kv.str("what").to_string()).or_default() += 1;
+        match res {
+            Ok(n) => {
+                rep.evaluations += n;
+                rep.transitions += n;
+            }
+            Err((exp, obs)) => rep.violation(Violation {
+                key: format!("{}-{}-{}-k{}r{}-{}", kv.str("what"), kv.str("eng"), kv.str("codec"), kv.str("k"), kv.str("r"), kv.opt("sets").map(|s| s.to_string()).or(kv.opt("og").map(|o| format!("o{o}-r{}", kv.str("rg")))).or(kv.opt("bytes").map(|b| format!("b{b}"))).unwrap_or_default()),
+                case: kv.dump(),
+                expected: exp,
+                observed: obs,
+            }),
+        }
+    }
+    for (k, v) in per {
+        rep.extra(&format!("cases_{k}"), J::i(v));
+    }
+    for i in [0, cases.len() / 3, cases.len() / 2, cases.len() - 1] {
+        rep.sample(cases[i].dump());
+    }
+}
